@@ -12,4 +12,7 @@ EXTENDS XotForest
 
 KnownId(prop, e, N, cons, detail) == ""
 
+\* parser engine: e = the event (input + runs), entry = the entry point, detail = the rejection
+KnownParse(prop, e, entry, detail) == ""
+
 =============================================================================
